@@ -33,9 +33,13 @@ def _source(it):
         if i.resolve(tag) == "record":
             kz = i.to_z3(payload)
             tok["arr"] = z3.Store(tok["arr"], kz, z3.Select(tok["arr"], kz) + 1)
+            tok["last_skipped"] = None
+        else:
+            tok["last_skipped"] = i.to_z3(payload)  # a block of comment / blank lines, kept verbatim
 
     def havoc(i, name):
         tok["arr"] = z3.Const(i.run.fresh(name + ".count"), tok["arr"].sort())
+        tok["last_skipped"] = None  # what the loop appended last is not tracked; only the block appended AFTER the loop is
 
     o = SObj("_source (ghost multiset)", fresh=True, fields={"append": SStub(append, "_source.append"), "__havoc__": havoc})
     it.run.ghost["tokens"] = tok
@@ -77,6 +81,15 @@ def _setup(it, args):
     return None
 
 
+def _post_tail(it, env):
+    """the block of trailing comment / blank lines stored last ends with a line terminator: whatever is appended to the
+    file's text afterwards starts on a line of its own"""
+    last = it.run.ghost["tokens"].get("last_skipped")
+    if last is None:
+        return z3.BoolVal(True)
+    return z3.Or(z3.SuffixOf(z3.StringVal("\n"), last), z3.SuffixOf(z3.StringVal("\r"), last))
+
+
 def _post(it, env):
     self = it.resolve(env.lookup("self"))
     g = it.run.ghost
@@ -95,7 +108,8 @@ CONTRACTS = [
         loops={"_load_lines#0": Loop(invariant=[_inv], instances=[_inv_touched],
                                      modifies=["idx", "line", "tmp", "key", "value", "skipped", "records", "source"])},
         raises={"ValueError": lambda it, env: z3.BoolVal("_records" not in it.resolve(env.lookup("self")).fields)},
-        ensures=[("after loading ANY sequence of lines: each user has exactly one source entry, no key more than one (duplicate lines dropped), and the new maps are installed together", _post)],
+        ensures=[("after loading ANY sequence of lines: each user has exactly one source entry, no key more than one (duplicate lines dropped), and the new maps are installed together", _post),
+                 ("a trailing block of comment lines is stored with a final line terminator (a record appended later cannot merge with it)", _post_tail)],
         descr="any number of lines, any mixture of comment / blank / record / duplicate / malformed lines",
     )
 ]
@@ -296,3 +310,5 @@ CONTRACTS.append(Contract(
     descr="any non-empty bound path",
 ))
 MUTANTS.append(("save: an export to another path records that file's time as the bound file's", A, "        if path is not None:\n            with open(path, \"wb\") as fh:\n                fh.writelines(self._iter_lines())\n", "        if path is not None:\n            with open(path, \"wb\") as fh:\n                fh.writelines(self._iter_lines())\n            self._mtime = os.path.getmtime(path)\n", "refute", "_CommonFile.save"))
+
+MUTANTS.append(("_load_lines: trailing comment block stored without its line terminator", A, "        if skipped.rstrip():\n            # NOTE: a last line without newline must not swallow a record appended after it.\n            if not skipped.endswith((b\"\\n\", b\"\\r\")):\n                skipped += b\"\\n\"\n            source.append((_SKIPPED, skipped))", "        skipped = skipped.rstrip()\n        if skipped:\n            source.append((_SKIPPED, skipped))", "refute", "_load_lines"))
